@@ -136,6 +136,9 @@ func checkC16(c *Ctx) {
 }
 
 func ownerOf(f *types.Var, pkg *types.Package) string {
+	if o, ok := cn.fieldOwner[f.Origin()]; ok {
+		return o
+	}
 	// find the named struct type declaring f
 	for _, n := range pkg.Scope().Names() {
 		tn, ok := pkg.Scope().Lookup(n).(*types.TypeName)
@@ -148,7 +151,7 @@ func ownerOf(f *types.Var, pkg *types.Package) string {
 		}
 		for i := 0; i < st.NumFields(); i++ {
 			if st.Field(i).Origin() == f.Origin() {
-				return n
+				return canonTypeName(tn)
 			}
 		}
 	}
@@ -348,7 +351,7 @@ func (c *Ctx) c16Accesses() {
 					if own == "" {
 						continue
 					}
-					key := own + "." + ev.Field.Name()
+					key := own + "." + fname(ev.Field)
 					fc, ok := fieldTable[key]
 					if !ok {
 						if c.unclassified[key] && !userTypes[own] {
@@ -383,7 +386,7 @@ func (c *Ctx) c16Accesses() {
 						lock := base
 						switch {
 						case fc.lock != "":
-							lock = base + "." + fc.lock
+							lock = base + "." + actualField(own, fc.lock)
 						case own == "Invalidator":
 							lock = base + ".Mutex"
 						}
@@ -631,7 +634,7 @@ func (c *Ctx) c16KeyLock(sib string) {
 				if isRelease(ev) {
 					released = true
 				}
-				if ev.Kind != pw.EvFieldWrite || ev.Field == nil || (ev.Field.Name() != "val" && ev.Field.Name() != "err") {
+				if ev.Kind != pw.EvFieldWrite || ev.Field == nil || (fname(ev.Field) != "val" && fname(ev.Field) != "err") {
 					continue
 				}
 				if o := namedTypeName(derefType(ev.Recv.Type)); o != "kl" && o != "klOf" {
@@ -639,10 +642,10 @@ func (c *Ctx) c16KeyLock(sib string) {
 				}
 				n++
 				if cl.lookup == nil || cl.found {
-					d, t := c.pathDetail(fo, p, "a Get that does not own the key lock writes "+ev.Field.Name()+" of the shared entry: it races with the owner's write and with other waiters' reads")
-					r.Bad("R16.5", cons, "waiter-writes-"+ev.Field.Name(), c.Pos(ev.Pos), d, t)
+					d, t := c.pathDetail(fo, p, "a Get that does not own the key lock writes "+fname(ev.Field)+" of the shared entry: it races with the owner's write and with other waiters' reads")
+					r.Bad("R16.5", cons, "waiter-writes-"+fname(ev.Field), c.Pos(ev.Pos), d, t)
 				} else if released {
-					d, t := c.pathDetail(fo, p, "the owner writes the key lock's "+ev.Field.Name()+" after releasing it: waiters read it concurrently")
+					d, t := c.pathDetail(fo, p, "the owner writes the key lock's "+fname(ev.Field)+" after releasing it: waiters read it concurrently")
 					r.Bad("R16.5", cons, "write-after-release", c.Pos(ev.Pos), d, t)
 				}
 			}
@@ -672,7 +675,7 @@ func (c *Ctx) c16PublishBeforeStart() {
 			for _, p := range run.paths {
 				for _, ev := range p.Events {
 					if ev.Kind == pw.EvFieldRead && ev.Field != nil {
-						readBy[ev.Field.Name()] = true
+						readBy[fname(ev.Field)] = true
 					}
 				}
 			}
@@ -700,11 +703,11 @@ func (c *Ctx) c16PublishBeforeStart() {
 				switch ev.Kind {
 				case pw.EvFieldWrite:
 					if ev.Field != nil {
-						fld = ev.Field.Name()
+						fld = fname(ev.Field)
 					}
 				case pw.EvMapInsert, pw.EvIndexWrite:
 					if ev.Recv != nil && ev.Recv.Field != nil {
-						fld = ev.Recv.Field.Name()
+						fld = fname(ev.Recv.Field)
 					}
 				}
 				if fld != "" && readBy[fld] {
